@@ -90,6 +90,7 @@ class RunCtx:
     def call(self, check_id, sig, fn, *a, **kw):
         """Call library code in a place where the property requires a result: any exception is a
         violation (with the exception type in the signature), not a harness error."""
+        self.warm(fn, *a, **kw)
         try:
             return fn(*a, **kw)
         except Violation:
@@ -100,6 +101,21 @@ class RunCtx:
             where = f"{tb[-1].filename.rsplit('/', 1)[-1]}:{tb[-1].lineno}" if tb else "?"
             self.violate(check_id, f"{getattr(fn, '__name__', fn)} raised {type(e).__name__}: {e} (at {where})",
                          dict(sig or {}, exc=type(e).__name__))
+
+    def warm(self, fn, *a, **kw):
+        if getattr(self, "twice", False) and getattr(fn, "__self__", None) is None:
+            # history seam "the same request served twice": a module-level library function is first called with the
+            # very same argument objects, the caller edits whatever that call returned (as callers do with circuits
+            # they own), and only the result of the second call is judged.  Finds results served from a cache that
+            # the first caller can reach, arguments emptied by the first call, state left behind between calls.
+            try:
+                first = fn(*a, **kw)
+            except Exception:
+                first = None
+            else:
+                self.probe("called_twice_first_result_edited")
+            scribble(first)
+            self.log("twice", getattr(fn, "__name__", "?"))
 
     def probe(self, name, n=1):
         self.probes[name] += n
@@ -114,6 +130,54 @@ class RunCtx:
 
     def digest(self):
         return self._h.hexdigest()
+
+
+def scribble(x, depth=0):
+    """Edit a value the library returned, in place and recursively, the way a caller who owns it may."""
+    if depth > 3 or x is None or isinstance(x, (str, bytes, int, float, bool)):
+        return
+    if hasattr(x, "graph") and hasattr(x, "blackboxes"):
+        g = x.graph
+        names = list(g.nodes)
+        for n in names[:2]:
+            g.nodes[n]["output"] = not g.nodes[n].get("output", False)
+        if names:
+            g.nodes[names[-1]]["type"] = "and" if g.nodes[names[-1]].get("type") == "nor" else "nor"
+        g.add_node("scribble__n", type="input", output=True)
+        if names:
+            g.add_edge("scribble__n", names[0])
+        if len(names) > 2:
+            g.remove_node(names[1])
+        try:
+            x.blackboxes.clear()
+            x.name = "scribbled"
+        except Exception:
+            pass
+    elif isinstance(x, dict):
+        for k in list(x)[:2]:
+            scribble(x[k], depth + 1)
+        for k in list(x)[:1]:
+            x.pop(k)
+        try:
+            x["scribble__k"] = None
+        except Exception:
+            pass
+    elif isinstance(x, list):
+        for e in x[:3]:
+            scribble(e, depth + 1)
+        if x:
+            x.pop()
+        x.append("scribble__e")
+    elif isinstance(x, set):
+        for e in list(x)[:3]:
+            scribble(e, depth + 1)
+        if x:
+            x.pop()
+    elif isinstance(x, tuple):
+        for e in x[:4]:
+            scribble(e, depth + 1)
+    elif hasattr(x, "clauses") and isinstance(getattr(x, "clauses"), list):
+        x.clauses.append([1, -1])   # a CNF formula object handed out by sat.cnf
 
 
 def state_digest(c):
